@@ -920,3 +920,6 @@ func (s *Script) render(nfacts int, negGoal string, wantModel bool, forCVC5 bool
 	}
 	return sb.String()
 }
+
+// fileSafe: sanitize for file names (no `$`, which closures carry in their names)
+func fileSafe(x string) string { return strings.ReplaceAll(sanitize(x), "$", "_") }
